@@ -3,7 +3,7 @@ only on fit and paired with this embedding's accumulator, static fit rule, swap/
 The number of embeddings for a given call tree is NOT decided."""
 import ast
 
-from ..astq import conds, expand, is_name, kwarg, returns_of, single_defs
+from ..astq import conds, ends_in_jump, expand, facts_of, is_name, kwarg, returns_of, single_defs
 from ..core import AnalysisError, norm, order, walk_local
 from ..pairing import contextvars_of
 from .c05 import token_sites
@@ -63,28 +63,34 @@ def run(repo, chk):
     chk.ob("R03.3", "overlay.HandlerCollection.proceed:memo", ok, pr.where,
            "the fit is looked up per (function, selector); a miss (None) is computed by fits_selector (and, if stored, stored under the same key), False means 'does not fit'")
     fs = repo.func("overlay.fits_selector")
-    body = fs.node.body
-    first_if = next((n for n in body if isinstance(n, ast.If)), None)
-    ok = first_if is not None and norm(first_if.test) == "not check_element(selector.element, fname, fcat)" and isinstance(first_if.body[0], ast.Return) \
-        and isinstance(first_if.body[0].value, ast.Constant) and first_if.body[0].value.value is False
+    ff = facts_of(fs)
+    pfn, selp = (a_.arg for a_ in fs.node.args.args[:2])
+    elt = f"check_element({selp}.element, {pfn}, {pfn}.__annotations__.get('return', None))"
+    rets = [(t, set(c), n) for t, c, n in ff.items if isinstance(n, ast.Return)]
+    falses = [c for t, c, n in rets if t == "return False"]
+    ok = any(c == {f"not {elt}"} or (f"not {elt}" in c and len([x for x in c if x.startswith("not check_element(")]) == len(c)) for c in falses) \
+        and all(elt in c for t, c, n in rets if t != "return False") and all(elt in set(c) for t, c, n in ff.items if isinstance(n, ast.For))
     chk.ob("R03.3", "overlay.fits_selector:function-element-first", ok, fs.where, "a level does not fit a function whose identity / return tag does not match the level's function element")
-    t = norm(fs.node)
-    named = [n for n in ast.walk(fs.node) if isinstance(n, ast.If) and "not in fvars" in norm(n.test)]
-    ok = len(named) == 1 and isinstance(named[0].body[0], ast.Return) and norm(named[0].body[0].value) == "False" and "name = cap.name.split('.')[0]" in t
+    table = (ff.bound_to(f"{pfn}.__ptera_info__") or [f"{pfn}.__ptera_info__"])[0]
+    base = (ff.bound_to("cap.name.split('.')[0]") or ["cap.name.split('.')[0]"])[0]
+    want = {"cap.name is not None", "not cap.name.startswith('#')"}
+    ok = any(want <= c and ({f"{base} not in {table}"} & c or {f"cap.name.split('.')[0] not in {table}"} & c) for c in falses)
     chk.ob("R03.3", "overlay.fits_selector:named-capture-must-exist", ok, fs.where, "a named capture must be in the function's variable table (by its base name)")
-    gen = [n for n in ast.walk(fs.node) if isinstance(n, ast.If) and norm(n.test) == "not varnames"]
-    ok = len(gen) == 1 and norm(gen[0].body[0].value) == "False" and "if check_element(cap, var, info['annotation'])" in t
+    gen = ff.bound_to(f"[var for var, info in {table}.items() if check_element(cap, var, info['annotation'])]")
+    ok = len(gen) == 1 and any({"cap.name is None", f"not {gen[0]}"} <= c for c in falses)
     chk.ob("R03.3", "overlay.fits_selector:generic-capture-needs-a-match", ok, fs.where, "a generic capture must match at least one variable of the function")
-    r = returns_of(fs.node)
-    ok = norm(r[-1].value) == "capmap" and all(norm(x.value) in ("False", "capmap") for x in r) and "capmap[cap] = varnames" in t and "capmap[cap] = [cap.name]" in t
+    maps = [t[len("return "):] for t, c, n in rets if t != "return False"]
+    mv = maps[0] if maps else "<capture map>"
+    ok = len(set(maps)) == 1 and len(falses) == 3 and len(gen) == 1 and ff.has(f"{mv}[cap] = {gen[0]}", when=["cap.name is None", gen[0]]) \
+        and ff.has(f"{mv}[cap] = [cap.name]", when=["cap.name is not None"]) and ff.has(f"{mv} = {{}}") and ends_in_jump(fs.node.body)
     chk.ob("R03.3", "overlay.fits_selector:returns-capture-map", ok, fs.where, "a fitting level returns {capture: matching variable names}; only mismatches return False")
-    loops2 = [n for n in walk_local(fs.node) if isinstance(n, ast.For) and norm(n.iter) == "selector.captures"]
+    loops2 = [n for n in walk_local(fs.node) if isinstance(n, ast.For) and norm(n.iter) == f"{selp}.captures" and is_name(n.target, "cap")]
     chk.ob("R03.3", "overlay.fits_selector:every-capture-checked", len(loops2) == 1, fs.where, "every capture of the level is checked")
     # ---------------- R03.4
     ctxvars = contextvars_of(repo)
     en, ex = repo.func("overlay.proceed.__enter__"), repo.func("overlay.proceed.__exit__")
     sites = [(fi, call, st, tok) for fi, call, st, tok in token_sites(repo, ctxvars) if fi.qual == en.qual]
-    ok = len(sites) == 1 and norm(sites[0][1].args[0]) == "new" and any(isinstance(n, ast.Assign) and "self.curr.proceed(self.fn)" in norm(n.value) and
+    ok = len(sites) == 1 and norm(sites[0][1].args[0]) == "new" and any(isinstance(n, ast.Assign) and expand(n.value, en.node) == "self.curr.proceed(self.fn)" and
                                                                           any(norm(e) == "new" for t_ in n.targets for e in (t_.elts if isinstance(t_, ast.Tuple) else [t_])) for n in walk_local(en.node))
     chk.ob("R03.4", "overlay.proceed.__enter__:installs-callee-collection", ok, en.where, "entering an activation installs the collection computed by proceed() for this function")
     tok = sites[0][3] if sites else None
